@@ -60,3 +60,164 @@ Qed.
 Lemma flush_size b : fb_size (flush b) = fb_size b.
 Proof. unfold flush, fb_size, zlen; cbn [fb_disk]. rewrite map_length, seq_length. reflexivity. Qed.
 Print Assumptions flush_disk_is_view.
+
+(** * Reads never change what the buffer shows (C05, C17) *)
+
+(** caching one page: same disk, same view, invariant kept *)
+Definition cache_page (b : fbuf) (p : Z) : fbuf :=
+  match znth None (fb_pages b) p with
+  | Some _ => b
+  | None => mkFbuf (fb_disk b) (fb_psz b) (zupd (fb_pages b) p (Some (disk_page b p))) (fb_dirty b)
+  end.
+
+Lemma cache_page_disk b p : fb_disk (cache_page b p) = fb_disk b.
+Proof. unfold cache_page. destruct (znth None (fb_pages b) p); reflexivity. Qed.
+Lemma cache_page_psz b p : fb_psz (cache_page b p) = fb_psz b.
+Proof. unfold cache_page. destruct (znth None (fb_pages b) p); reflexivity. Qed.
+Lemma cache_page_dirty b p : fb_dirty (cache_page b p) = fb_dirty b.
+Proof. unfold cache_page. destruct (znth None (fb_pages b) p); reflexivity. Qed.
+
+Lemma disk_page_len b p : 0 < fb_psz b -> 0 <= p < page_count (fb_size b) (fb_psz b) ->
+  zlen (disk_page b p) = page_len b p /\ 0 < page_len b p.
+Proof.
+  intros Hp Hr. unfold disk_page, page_len, page_lo, page_hi, page_count in *.
+  assert (p * fb_psz b < fb_size b).
+  { assert (p <= (fb_size b + fb_psz b - 1) / fb_psz b - 1) by lia.
+    assert (p * fb_psz b <= ((fb_size b + fb_psz b - 1) / fb_psz b - 1) * fb_psz b) by (apply Z.mul_le_mono_nonneg_r; lia).
+    pose proof (Z.mul_div_le (fb_size b + fb_psz b - 1) (fb_psz b) Hp). lia. }
+  assert (0 <= p * fb_psz b) by (apply Z.mul_nonneg_nonneg; lia).
+  unfold fb_size in *. rewrite slice_length by lia. lia.
+Qed.
+
+Lemma cache_page_inv b p : fb_inv b -> 0 <= p < page_count (fb_size b) (fb_psz b) -> fb_inv (cache_page b p).
+Proof.
+  intros Hinv Hr. pose proof Hinv as (Hp & Hl1 & Hl2 & Hpg). unfold cache_page.
+  destruct (znth None (fb_pages b) p) as [pg|] eqn:E; [exact Hinv|].
+  unfold fb_inv, fb_size. cbn [fb_disk fb_psz fb_pages fb_dirty]. fold (fb_size b).
+  split; [exact Hp|]. split; [rewrite zlen_zupd; exact Hl1|]. split; [exact Hl2|].
+  intros q Hq. rewrite znth_zupd by lia.
+  destruct (Z.eqb_spec q p) as [->|Hne].
+  - destruct (disk_page_len b p Hp Hr) as [Hlen Hpos].
+    unfold page_len, fb_size in *. cbn [fb_disk fb_psz]. split; [exact Hlen|].
+    intros _ j Hj. unfold disk_page.
+    assert (H0 : 0 <= p * fb_psz b) by (apply Z.mul_nonneg_nonneg; lia).
+    unfold page_lo, page_hi, fb_size in *.
+    rewrite znth_slice by lia. reflexivity.
+  - specialize (Hpg q Hq). destruct (znth None (fb_pages b) q); exact Hpg.
+Qed.
+
+Lemma cache_page_view b p i : fb_inv b -> 0 <= p < page_count (fb_size b) (fb_psz b) -> 0 <= i < fb_size b ->
+  view (cache_page b p) i = view b i.
+Proof.
+  intros Hinv Hr Hi. pose proof Hinv as (Hp & Hl1 & Hl2 & Hpg). unfold cache_page.
+  destruct (znth None (fb_pages b) p) as [pg|] eqn:E; [reflexivity|].
+  unfold view. cbn [fb_pages fb_psz fb_disk].
+  destruct (page_of_byte (fb_size b) (fb_psz b) i Hp Hi) as (Hpr & Hrange & Hdecomp).
+  rewrite znth_zupd by lia.
+  destruct (Z.eqb_spec (i / fb_psz b) p) as [Heq|Hne]; [|reflexivity].
+  rewrite <- Heq in E. rewrite E. subst p.
+  unfold disk_page.
+  assert (H0 : 0 <= page_lo (fb_psz b) (i / fb_psz b)).
+  { unfold page_lo. apply Z.mul_nonneg_nonneg; lia. }
+  assert (H1 : page_hi (fb_size b) (fb_psz b) (i / fb_psz b) <= zlen (fb_disk b)) by (unfold page_hi, fb_size; lia).
+  pose proof (Z.mod_pos_bound i (fb_psz b) Hp) as Hm.
+  rewrite znth_slice by lia. f_equal. lia.
+Qed.
+
+Lemma load_pages_cache b p n : load_pages b p (S n) = load_pages (cache_page b p) (p + 1) n.
+Proof. reflexivity. Qed.
+
+Theorem load_pages_facts : forall n b p, fb_inv b -> 0 <= p -> p + Z.of_nat n <= page_count (fb_size b) (fb_psz b) ->
+  fb_inv (load_pages b p n) /\ fb_disk (load_pages b p n) = fb_disk b /\ fb_dirty (load_pages b p n) = fb_dirty b /\
+  fb_psz (load_pages b p n) = fb_psz b /\
+  forall i, 0 <= i < fb_size b -> view (load_pages b p n) i = view b i.
+Proof.
+  induction n as [|n IH]; intros b p Hinv Hp0 Hpn.
+  { cbn [load_pages]. split; [exact Hinv|]. repeat split; reflexivity. }
+  rewrite load_pages_cache.
+  assert (Hr : 0 <= p < page_count (fb_size b) (fb_psz b)) by lia.
+  pose proof (cache_page_inv b p Hinv Hr) as Hinv'.
+  assert (Hsz : fb_size (cache_page b p) = fb_size b) by (unfold fb_size; rewrite cache_page_disk; reflexivity).
+  destruct (IH (cache_page b p) (p + 1) Hinv' ltac:(lia)) as (H1 & H2 & H3 & H4 & H5).
+  { rewrite Hsz, cache_page_psz. lia. }
+  split; [exact H1|]. split; [rewrite H2; apply cache_page_disk|]. split; [rewrite H3; apply cache_page_dirty|].
+  split; [rewrite H4; apply cache_page_psz|].
+  intros i Hi. rewrite H5 by (rewrite Hsz; exact Hi). apply cache_page_view; assumption.
+Qed.
+
+(** the pages a range touches exist *)
+Lemma range_pages b off len : 0 < fb_psz b -> 0 <= off -> 0 < len -> off + len <= fb_size b ->
+  0 <= first_page b off /\ first_page b off <= last_page b off len /\
+  last_page b off len < page_count (fb_size b) (fb_psz b).
+Proof.
+  intros Hp Ho Hl Hb. unfold first_page, last_page.
+  destruct (page_of_byte (fb_size b) (fb_psz b) (off + len - 1) Hp ltac:(lia)) as ((H1 & H2) & _).
+  split; [apply Z.div_pos; lia|]. split; [apply Z.div_le_mono; lia|exact H2].
+Qed.
+
+(** [ReadAt]: returns what the buffer showed, shows the same afterwards, leaves the disk alone *)
+Theorem read_at_spec b off len : fb_inv b -> 0 < len ->
+  match read_at b off len with
+  | IoErr => ~ (0 <= off /\ off + len <= fb_size b)
+  | IoOk (b', data) =>
+    fb_inv b' /\ fb_disk b' = fb_disk b /\ fb_dirty b' = fb_dirty b /\
+    (forall i, 0 <= i < fb_size b -> view b' i = view b i) /\
+    data = map (fun k => view b (off + Z.of_nat k)) (seq 0 (Z.to_nat len))
+  end.
+Proof.
+  intros Hinv Hlen. pose proof Hinv as (Hp & _). unfold read_at, in_bounds.
+  destruct (Z.leb_spec 0 off) as [Ho|Ho]; cbn [andb]; [|lia].
+  destruct (Z.leb_spec (off + len) (fb_size b)) as [Hb|Hb]; [|lia].
+  destruct (range_pages b off len Hp Ho Hlen Hb) as (Hf & Hfl & Hlp).
+  unfold preread.
+  destruct (load_pages_facts (Z.to_nat (last_page b off len - first_page b off + 1)) b (first_page b off) Hinv Hf ltac:(lia))
+    as (H1 & H2 & H3 & H4 & H5).
+  split; [exact H1|]. split; [exact H2|]. split; [exact H3|]. split; [exact H5|].
+  apply map_ext_in. intros k Hk. apply in_seq in Hk. apply H5. lia.
+Qed.
+
+(** * Writes change the view exactly in the written range and never touch the disk *)
+Lemma poke_disk b i v : fb_disk (poke b i v) = fb_disk b.
+Proof. unfold poke. destruct (znth None (fb_pages b) (i / fb_psz b)); reflexivity. Qed.
+Lemma poke_psz b i v : fb_psz (poke b i v) = fb_psz b.
+Proof. unfold poke. destruct (znth None (fb_pages b) (i / fb_psz b)); reflexivity. Qed.
+
+Definition cached (b : fbuf) (i : Z) : Prop := exists pg, znth None (fb_pages b) (i / fb_psz b) = Some pg.
+
+Lemma poke_view b i v j : fb_inv b -> 0 <= i < fb_size b -> cached b i -> 0 <= j < fb_size b ->
+  view (poke b i v) j = if j =? i then v else view b j.
+Proof.
+  intros Hinv Hi [pg Hpg] Hj. pose proof Hinv as (Hp & Hl1 & Hl2 & Hall).
+  destruct (page_of_byte (fb_size b) (fb_psz b) i Hp Hi) as (Hpr & Hrange & Hdecomp).
+  destruct (page_of_byte (fb_size b) (fb_psz b) j Hp Hj) as (Hprj & Hrangej & Hdecompj).
+  pose proof (Hall (i / fb_psz b) Hpr) as Hpi. rewrite Hpg in Hpi. destruct Hpi as [Hlen _].
+  unfold poke. rewrite Hpg. unfold view. cbn [fb_pages fb_psz].
+  rewrite znth_zupd by lia.
+  destruct (Z.eqb_spec (j / fb_psz b) (i / fb_psz b)) as [Heq|Hne].
+  - rewrite Heq, Hpg. pose proof (Z.mod_pos_bound i (fb_psz b) Hp). pose proof (Z.mod_pos_bound j (fb_psz b) Hp).
+    unfold page_len, page_lo, page_hi in *.
+    rewrite znth_zupd by lia.
+    destruct (Z.eqb_spec (j mod fb_psz b) (i mod fb_psz b)); destruct (Z.eqb_spec j i); try reflexivity; lia.
+  - destruct (Z.eqb_spec j i); [subst; contradiction|reflexivity].
+Qed.
+
+(** the disk is not touched by reads and writes, whatever the state of the buffer *)
+Lemma load_pages_disk : forall n b p, fb_disk (load_pages b p n) = fb_disk b.
+Proof.
+  induction n as [|n IH]; intros b p; [reflexivity|]. rewrite load_pages_cache, IH. apply cache_page_disk.
+Qed.
+Lemma fold_poke_disk : forall data b i,
+  fb_disk (fst (fold_left (fun '(bb, k) v => (poke bb k v, k + 1)) data (b, i))) = fb_disk b.
+Proof.
+  induction data as [|v r IH]; intros b i; [reflexivity|]. cbn [fold_left]. rewrite IH. apply poke_disk.
+Qed.
+Theorem write_at_disk b off data b' : write_at b off data = IoOk b' -> fb_disk b' = fb_disk b.
+Proof.
+  unfold write_at. destruct (in_bounds b off (zlen data)); [|discriminate].
+  intros E; injection E as <-. rewrite fold_poke_disk. unfold preread. apply load_pages_disk.
+Qed.
+Theorem read_at_disk b off len b' data : read_at b off len = IoOk (b', data) -> fb_disk b' = fb_disk b.
+Proof.
+  unfold read_at. destruct (in_bounds b off len); [|discriminate].
+  intros E; injection E as <- _. unfold preread. apply load_pages_disk.
+Qed.
